@@ -22,7 +22,7 @@ import time
 from vf.core import Check, CaseResult, PY, VERIF, REPO
 
 SCENARIOS = ['plain', 'with', 'ctx', 'nonblocking', 'nested', 'nested_force', 'timed_vs_holder',
-             'default_timeout', 'with_subprocess', 'del', 'forked_worker']
+             'default_timeout', 'with_subprocess', 'del', 'forked_worker', 'with_subprocess_nostdin', 'plain_nostdin']
 
 PROBE = ("import sys, logging; logging.disable(50); import aiuti.filelock as F; l = F.FileLock(sys.argv[1]); "
          "g = l.acquire(blocking=False); print('PROBE', g); g and l.release()")
@@ -382,8 +382,11 @@ class C13(Check):
             if case['cont'] == 2:
                 extra = ['acq,with', '0.3'] if i == 0 else ['nb,nb,timed', '0.0']
             else:
-                extra = ['with,acq,nb,timed,ctx', '0.08']
-            conts.append(subprocess.Popen([PY, '-m', 'vf.props.flock_child', path, d, '1', '0', str(1000 + i * 4), '1', 'forever'] + extra,
+                extra = ['with,acq,nb,timed,ctx,timed0', '0.08']
+            # a single contender has two threads that share its two lock objects (a timed attempt of one thread expires
+            # while the other thread holds the same object)
+            nthr = '2' if case['cont'] == 1 else '1'
+            conts.append(subprocess.Popen([PY, '-m', 'vf.props.flock_child', path, d, nthr, '0', str(1000 + i * 4), '1', 'forever'] + extra,
                                           env=_env(), cwd=VERIF, stdout=subprocess.PIPE, stderr=subprocess.PIPE))
 
         def progress():
